@@ -54,6 +54,10 @@ def one(sid):
     }
     if sid in NOTES:
         meta["history"] = NOTES[sid]
+    import glob as _g
+    orig = [os.path.basename(x) for x in _g.glob(os.path.join(d, "patch.at-*.diff"))]
+    if orig and sid not in REBASED:
+        meta["patch_note"] = "patch.diff carries the agent's change over a later fix: commit in /repo that touched the same lines; the change as delivered is " + orig[0]
     if sid in REBASED:
         meta["patch_note"] = "patch.diff carries the agent's change over the later hook commit 901951d (an inert verifPoint line next to the changed statement); the change as delivered, against 6e387b2, is patch.at-6e387b2.diff"
     json.dump(meta, open(os.path.join(d, "meta.json"), "w"), indent=1)
